@@ -400,6 +400,9 @@ func (st *State) applyContract(f *Frame, ins ssa.Instruction, c *Contract, calle
 			st.oblige("decr", "decr:"+name+"@"+strings.TrimPrefix(ord, "call@"), st.measureDecreases(m, old), c.Decreases.Src+"  [recursive call at "+st.pos(ins)+"]")
 		}
 	}
+	if len(c.Iterates) > 0 {
+		st.iterateCallbacks(f, ins, c, names, args, env, name, ord)
+	}
 	// frame
 	oldHeap := st.heap.clone()
 	oldTop := st.allocTop
